@@ -237,6 +237,8 @@ class Inst(Ty):
         for k, t in self.fields.items():
             v = t.make(interp, '%s.%s' % (name, k)) if isinstance(t, Ty) else t
             object.__setattr__(obj, k, v)
+        if hasattr(interp, 'note_new_object'):
+            interp.note_new_object(obj)
         if self.invariant is not None:
             interp.st.assume(interp.truth(interp.call(self.invariant, [obj], {})))
         return obj
@@ -360,6 +362,7 @@ class MListOf(Ty):
         interp.st.assume(n >= 0)
         m.length = n
         m.is_deque = self.deque
+        m.new_base()
         return m
 
     def concrete(self, cx, name):
@@ -399,6 +402,29 @@ def _mshape(ty):
         iface = ty.iface() if isinstance(ty.iface, types.FunctionType) else ty.iface
         return record_shape(iface)
     raise Unsupported('MListOf element type %r' % (ty,))
+
+
+class Measure:
+    """A left fold over a list, usable in clauses and loop invariants:
+        h([]) == init,   h(xs + [x]) == step(h(xs), x, *params)        (h(xs, *params) to apply it)
+    Natively it is computed.  In proofs it is computed on lists built by the code; on an `MListOf` list it
+    is a ghost value of the list: unknown (of shape ``shape``) when the list is havocked at a loop head or
+    comes out of a contract, and updated by `step` at every append / extend the code performs."""
+
+    def __init__(self, name, init, step, shape):
+        self.name = name
+        self.init = init
+        self.step = step
+        self.shape = shape
+
+    def __call__(self, xs, *params):
+        acc = self.init
+        for x in xs:
+            acc = self.step(acc, x, *params)
+        return acc
+
+    def __repr__(self):
+        return '<Measure %s>' % self.name
 
 
 class IterOf(Ty):
@@ -726,6 +752,8 @@ def new_opaque(interp, iface, name, index=(), preset=None, _is_id=False):
         name, index = universe_of(iface), (idt,)
     uid = st.fresh_name(name) if not index else name
     o = Opaque(iface, uid)
+    if hasattr(interp, 'note_new_object'):
+        interp.note_new_object(o)
     o.__dict__['_pv_index'] = tuple(index)
     if preset:
         o._pv_attrs.update(preset)
